@@ -1,3 +1,7 @@
--- This module serves as the root of the `Saito` library.
--- Import modules here that should be built as part of the library.
-import Saito.Basic
+import Saito.Model.Bytes
+import Saito.Model.Flags
+import Saito.Model.Codec
+import Saito.Model.Codec2
+import Saito.Lemmas.Bytes
+import Saito.Lemmas.Codec
+import Saito.Lemmas.CodecTotal
